@@ -236,6 +236,24 @@ Theorem read_back_token_streams : forall nd tss rows ps,
 Proof. exact read_back_token_streams_l. Qed.
 Print Assumptions read_back_token_streams.
 
+(* The converse of token_parse_inverts: whatever token list the read side's parser accepts IS the token list of the tree it returns
+   (no two token lists parse to the same value, nothing is dropped or reordered): parse is a bijection between the accepted streams and
+   the JSON values.  Invariant of the stack machine: the tokens consumed so far = the tokens of the finished value followed by, from the
+   bottom of the stack to its top, each open frame's bracket, finished members / elements and pending key. *)
+Theorem token_parse_only_inverts : forall ts t, parse ts = Some t -> ts = toks_of t.
+Proof. exact parse_only_toks_of. Qed.
+Print Assumptions token_parse_only_inverts.
+
+(* Hence the hypothesis of read_back_token_streams needs no re-serialisation test: it is enough that every observed stream parses to one
+   value whose numbers are JSON numbers ([stream_ok]; [stream_wf] = [stream_ok] for every stream). *)
+Theorem read_back_parsed_streams : forall nd tss rows ps,
+  forallb stream_ok tss = true ->
+  zt_decode fixed false nd tss = Some rows -> pushed_of (zin nd tss) = Some ps ->
+  Forall2 row_of ps (map fst rows) /\ Forall2 tags_of ps (map snd rows) /\
+  Forall2 (fun p sr => reads_back p (read_row_tok fixed tss (fst sr))) ps rows.
+Proof. exact read_back_parsed_streams_l. Qed.
+Print Assumptions read_back_parsed_streams.
+
 (* An NDJSON line holding anything after the span object is refused (since the repair; before it the whole line was stored as the
    payload and the read path returned no span for it: legacy_nd_tail_unreadable in the proofs file). *)
 Theorem trailing_text_is_refused : forall q st t extra, jt_ok t = true -> extra <> [] ->
